@@ -155,6 +155,8 @@ type Recorder struct {
 	// OpCount counts executed opcodes.
 	OpCount [256]int
 	seq     int
+	// Hook, if set, sees every event right after it was appended.
+	Hook func(e *Ev)
 }
 
 func NewRecorder() *Recorder { return &Recorder{KeepStack: true, MemCap: 1 << 16} }
@@ -163,7 +165,11 @@ func (r *Recorder) add(e Ev) *Ev {
 	e.Seq = r.seq
 	r.seq++
 	r.Evs = append(r.Evs, e)
-	return &r.Evs[len(r.Evs)-1]
+	p := &r.Evs[len(r.Evs)-1]
+	if r.Hook != nil {
+		r.Hook(p)
+	}
+	return p
 }
 
 func memHash(b []byte) uint64 {
